@@ -170,6 +170,18 @@ CLAIMED["C14"] = dict(
          "containing the tensor more than once, the derivative when the tensor carries target or repeated indices, Einstein-convention inputs "
          "whose tensor indices occur more than twice (documented limitation of the convention), cases slower than the per-case time limit.")
 
+CLAIMED["C12"] = dict(
+    category="translation_validation", design="DESIGN.md §4 C12",
+    technique="enumeration over the registry found in the running code; every comparison (definition vs independently derived quantity, declared symmetry, declared vanishing spin block, renamed indices) decided by the proved Lean checker checkEquiv / the Lean spin-split model",
+    text="For every registered intermediate: (1) where an independent derivation exists - MP amplitudes of every order and class "
+         "(GroundState.amplitude, Wick-derived), RE residuals (amplitude_residual), density blocks (remove_tensor of the expectation value) "
+         "- the once-expanded definition is proved equal to it by checkEquiv for all Hamiltonians, orbital energies, lower amplitudes and "
+         "index assignments; (2) every declared permutational symmetry of its tensor symbol is proved on the definition; (3) every spin "
+         "block not declared as allowed is proved to vanish on the fully expanded definition (Lean spinRef + spin-conservation "
+         "hypothesis); (4) expansion with arbitrary index names (incl. names generated but not yet handed out by the registry) is proved "
+         "equal to the renamed default definition. The composite t2eri_*/t2sq intermediates have no independent reference (only 2-4).",
+    note=TB + "The reference quantities are derived by adcgen itself (wicks: C01; remove_tensor: C14); agreement with explicit determinant-space RSPT is the subject of C02. Quick tier samples symmetries/spin blocks of the larger tensors and skips t4_2 / third-order densities.")
+
 PENDING = {
 }
 
